@@ -19,36 +19,7 @@ def run(prog, rep, tier, cfg):
     X = Ctx(prog, rep)
     rep.explanation = LEVEL_TEXT
     rep.not_decided = 'window arithmetic, equality of totals across settlement schedules (value-dependent)'
-    PU = X.fn(ST + 'process_deal_update', CR)
-    tr = [c for c in PU.calls if callee_is(ST + 'transfer_balance')(c)]
-    rep.need('K5', 'update:payment-site', len(tr) == 1 and result_fate(PU, tr[0]) == 'try', 'one transfer_balance(..)? expected', X.loc(PU))
-    for c in tr:
-        X.arg_has('K10', 'update:payer', c, 2, ['F:DealProposal.client'], 'the client pays', forbid=['F:DealProposal.provider'])
-        X.arg_has('K10', 'update:payee', c, 3, ['F:DealProposal.provider'], 'the provider is paid', forbid=['F:DealProposal.client'])
-        X.arg_has('K10', 'update:amount', c, 4, ['F:DealProposal.storage_price_per_epoch', 'F:DealState.last_updated_epoch', 'F:DealProposal.start_epoch', 'F:DealProposal.end_epoch',
-                                                 'C:core::cmp::min', 'P:6', 'OP:Sub', 'C:::mul'], 'payment = price * (min(end, now) - max-like(start, last_updated))', narrow=False)
-        X.guard('K6b', 'update:only-positive', PU, [c.bb], m_pred('is_positive', ['F:DealProposal.storage_price_per_epoch'], True), 'elapsed_payment.is_positive()')
-    rets = PU.ret_blocks()
-    EVER = m_rel('ne', ['F:DealState.last_updated_epoch'], ['K:EPOCH_UNDEFINED'], False)   # arm deleted under "ever updated"
-    X.guard('K6b', 'update:not-updated-in-future', PU, [c.bb for c in tr], m_rel('gt', ['F:DealState.last_updated_epoch'], ['P:6'], False, pure=True), 'ever_updated && last_updated_epoch > epoch => Err',
-            assume=[m_boolatoms(['F:DealState.last_updated_epoch', 'K:EPOCH_UNDEFINED'], False)])
-    X.guard('K6b', 'update:not-before-start', PU, [c.bb for c in tr], m_rel('gt', ['F:DealProposal.start_epoch'], ['P:6'], False, pure=True), 'start_epoch > epoch => no payment')
-    # window start: last_updated only if later than start
-    ws = X.find_conds(PU, m_rel('gt', ['F:DealState.last_updated_epoch'], ['F:DealProposal.start_epoch'], True, pure=True))
-    rep.need('K6b', 'update:window-start-choice', len(ws) == 1, 'payment_start = last_updated_epoch if it is later than start_epoch, else start_epoch (found %d tests)' % len(ws), X.loc(PU))
-    # window end
-    we = [c for c in PU.calls if (c.callee or '') == 'core::cmp::min' and has_all(prog.narrow.operand(PU, c.args[0]) | prog.narrow.operand(PU, c.args[1]), ['F:DealProposal.end_epoch', 'P:6'])]
-    rep.need('K10', 'update:window-end', len(we) == 1, 'payment_end = min(deal.end_epoch, epoch) (found %d)' % len(we), X.loc(PU))
-    # completion
-    ex = [c for c in PU.calls if callee_is(ST + 'process_deal_expired')(c)]
-    rep.need('K5', 'update:expiry-site', len(ex) == 1 and result_fate(PU, ex[0]) == 'try', 'one process_deal_expired(..)? expected', X.loc(PU))
-    X.guard('K6b', 'update:completes-at-end', PU, [c.bb for c in ex], m_rel('ge', ['P:6'], ['F:DealProposal.end_epoch'], True, pure=True), 'epoch >= end_epoch')
-    PE = X.fn(ST + 'process_deal_expired', CR)
-    un = [c for c in PE.calls if callee_is(ST + 'unlock_balance')(c)]
-    rep.need('K5', 'expired:unlocks', len(un) == 2 and all(result_fate(PE, c) == 'try' for c in un), 'both collaterals are unlocked', X.loc(PE))
-    for (party, amt, reason) in (('F:DealProposal.provider', 'F:DealProposal.provider_collateral', 'E:Reason::ProviderCollateral'), ('F:DealProposal.client', 'F:DealProposal.client_collateral', 'E:Reason::ClientCollateral')):
-        hit = [c for c in un if has_atom(prog.slicer.operand(PE, c.args[4]), reason) and has_atom(prog.narrow.operand(PE, c.args[2]), party) and has_atom(prog.narrow.operand(PE, c.args[3]), amt)]
-        rep.need('K10', 'expired:%s' % reason.split('::')[-1], len(hit) == 1, 'unlock %s of %s under %s' % (amt, party, reason), X.loc(PE))
+    payment_window(prog, rep, X)
     # ---- progress is persisted at every settlement site
     X.callers('K5', ST + 'process_deal_update', callee_is(ST + 'process_deal_update'), ['Actor::cron_tick', 'Actor::settle_deal_payments'], crates=[CR])
     for hn in ('Actor::cron_tick', 'Actor::settle_deal_payments'):
@@ -122,3 +93,38 @@ def run(prog, rep, tier, cfg):
         rep.need('K7', 'terminate:removed', len(rc) == 1 and result_fate(g, rc[0]) == 'try' and g.dominates(ps[0].bb, rc[0].bb), 'a terminated deal is removed right after processing', X.loc(g))
     # payments move escrow only through transfer_balance: caller set is part of C06 (K5) and re-checked here
     X.callers('K5', ST + 'transfer_balance', callee_is(ST + 'transfer_balance'), [ST + 'process_deal_update', ST + 'process_slashed_deal'], crates=[CR])
+
+
+def payment_window(prog, rep, X, prefix=''):
+    """what one settlement moves: price x (window end - window start), client -> provider; completion unlocks both collaterals
+    (also evaluated under C06: it is what keeps a client's locked balance equal to its remaining obligations)"""
+    PU = X.fn(ST + 'process_deal_update', CR)
+    tr = [c for c in PU.calls if callee_is(ST + 'transfer_balance')(c)]
+    rep.need('K5', prefix + 'update:payment-site', len(tr) == 1 and result_fate(PU, tr[0]) == 'try', 'one transfer_balance(..)? expected', X.loc(PU))
+    for c in tr:
+        X.arg_has('K10', prefix + 'update:payer', c, 2, ['F:DealProposal.client'], 'the client pays', forbid=['F:DealProposal.provider'])
+        X.arg_has('K10', prefix + 'update:payee', c, 3, ['F:DealProposal.provider'], 'the provider is paid', forbid=['F:DealProposal.client'])
+        X.arg_has('K10', prefix + 'update:amount', c, 4, ['F:DealProposal.storage_price_per_epoch', 'F:DealState.last_updated_epoch', 'F:DealProposal.start_epoch', 'F:DealProposal.end_epoch',
+                                                 'C:core::cmp::min', 'P:6', 'OP:Sub', 'C:::mul'], 'payment = price * (min(end, now) - max-like(start, last_updated))', narrow=False)
+        X.guard('K6b', prefix + 'update:only-positive', PU, [c.bb], m_pred('is_positive', ['F:DealProposal.storage_price_per_epoch'], True), 'elapsed_payment.is_positive()')
+    rets = PU.ret_blocks()
+    EVER = m_rel('ne', ['F:DealState.last_updated_epoch'], ['K:EPOCH_UNDEFINED'], False)   # arm deleted under "ever updated"
+    X.guard('K6b', prefix + 'update:not-updated-in-future', PU, [c.bb for c in tr], m_rel('gt', ['F:DealState.last_updated_epoch'], ['P:6'], False, pure=True), 'ever_updated && last_updated_epoch > epoch => Err',
+            assume=[m_boolatoms(['F:DealState.last_updated_epoch', 'K:EPOCH_UNDEFINED'], False)])
+    X.guard('K6b', prefix + 'update:not-before-start', PU, [c.bb for c in tr], m_rel('gt', ['F:DealProposal.start_epoch'], ['P:6'], False, pure=True), 'start_epoch > epoch => no payment')
+    # window start: last_updated only if later than start
+    ws = X.find_conds(PU, m_rel('gt', ['F:DealState.last_updated_epoch'], ['F:DealProposal.start_epoch'], True, pure=True))
+    rep.need('K6b', prefix + 'update:window-start-choice', len(ws) == 1, 'payment_start = last_updated_epoch if it is later than start_epoch, else start_epoch (found %d tests)' % len(ws), X.loc(PU))
+    # window end
+    we = [c for c in PU.calls if (c.callee or '') == 'core::cmp::min' and has_all(prog.narrow.operand(PU, c.args[0]) | prog.narrow.operand(PU, c.args[1]), ['F:DealProposal.end_epoch', 'P:6'])]
+    rep.need('K10', prefix + 'update:window-end', len(we) == 1, 'payment_end = min(deal.end_epoch, epoch) (found %d)' % len(we), X.loc(PU))
+    # completion
+    ex = [c for c in PU.calls if callee_is(ST + 'process_deal_expired')(c)]
+    rep.need('K5', prefix + 'update:expiry-site', len(ex) == 1 and result_fate(PU, ex[0]) == 'try', 'one process_deal_expired(..)? expected', X.loc(PU))
+    X.guard('K6b', prefix + 'update:completes-at-end', PU, [c.bb for c in ex], m_rel('ge', ['P:6'], ['F:DealProposal.end_epoch'], True, pure=True), 'epoch >= end_epoch')
+    PE = X.fn(ST + 'process_deal_expired', CR)
+    un = [c for c in PE.calls if callee_is(ST + 'unlock_balance')(c)]
+    rep.need('K5', prefix + 'expired:unlocks', len(un) == 2 and all(result_fate(PE, c) == 'try' for c in un), 'both collaterals are unlocked', X.loc(PE))
+    for (party, amt, reason) in (('F:DealProposal.provider', 'F:DealProposal.provider_collateral', 'E:Reason::ProviderCollateral'), ('F:DealProposal.client', 'F:DealProposal.client_collateral', 'E:Reason::ClientCollateral')):
+        hit = [c for c in un if has_atom(prog.slicer.operand(PE, c.args[4]), reason) and has_atom(prog.narrow.operand(PE, c.args[2]), party) and has_atom(prog.narrow.operand(PE, c.args[3]), amt)]
+        rep.need('K10', prefix + 'expired:%s' % reason.split('::')[-1], len(hit) == 1, 'unlock %s of %s under %s' % (amt, party, reason), X.loc(PE))
